@@ -144,6 +144,7 @@ package redis
 
 //@ func (*upstream).chooseHost
 //@   prop C03 C12 C14 C11
+//@   alsoprop C04 C07 C02 C01 : no-panic
 //@   requires u != nil && req != nil && req.body != nil && len(req.body.Array) > 0 && u.cfg != nil
 //@   requires @replicas-wellformed forall s int, k int :: 0 <= s && s < 16384 && u.slots[s] != nil && 0 <= k && k < len(u.slots[s].Replicas) ==> u.slots[s].Replicas[k] != nil
 //@   modifies nothing
@@ -444,6 +445,8 @@ package redis
 
 //@ func handleSimpleCommand
 //@   prop C11 C03 C02 C01
+//@   callpre MakeRequest @routed-by-its-first-key arg0 == u && sameslice(arg1, req.body.Array[1].Text)
+//@   alsoprop C12 C14 C04 : routed-by-its-first-key
 //@   callpre SetResponse @locally-built-replies-are-one-line oneline(arg1)
 //@   consumes req
 //@   transfers MakeRequest req
@@ -458,18 +461,24 @@ package redis
 
 //@ func handleSumResultCommand
 //@   prop C11 C03 C01
+//@   callpre MakeRequest @every-child-is-routed-by-its-own-key arg0 == u && arg2 != nil && sameslice(arg1, arg2.body.Array[1].Text)
+//@   alsoprop C12 C14 C04 : every-child-is-routed-by-its-own-key
 //@   callpre SetResponse @locally-built-replies-are-one-line oneline(arg1)
 //@   requires u != nil && req != nil && validbody(req.body)
 //@   loop 0 assume forall k int :: 0 <= k && k < len(simpleReqs) ==> simpleReqs[k] != nil && simpleReqs[k].body != nil && len(simpleReqs[k].body.Array) >= 2
 
 //@ func handleMSet
 //@   prop C11 C03 C01
+//@   callpre MakeRequest @every-child-is-routed-by-its-own-key arg0 == u && arg2 != nil && sameslice(arg1, arg2.body.Array[1].Text)
+//@   alsoprop C12 C14 C04 : every-child-is-routed-by-its-own-key
 //@   callpre SetResponse @locally-built-replies-are-one-line oneline(arg1)
 //@   requires u != nil && req != nil && validbody(req.body)
 //@   loop 0 assume forall k int :: 0 <= k && k < len(simpleReqs) ==> simpleReqs[k] != nil && simpleReqs[k].body != nil && len(simpleReqs[k].body.Array) >= 2
 
 //@ func handleMGet
 //@   prop C11 C03 C01
+//@   callpre MakeRequest @every-child-is-routed-by-its-own-key arg0 == u && arg2 != nil && sameslice(arg1, arg2.body.Array[1].Text)
+//@   alsoprop C12 C14 C04 : every-child-is-routed-by-its-own-key
 //@   callpre SetResponse @locally-built-replies-are-one-line oneline(arg1)
 //@   requires u != nil && req != nil && validbody(req.body)
 //@   loop 0 assume forall k int :: 0 <= k && k < len(simpleReqs) ==> simpleReqs[k] != nil && simpleReqs[k].body != nil && len(simpleReqs[k].body.Array) >= 2
@@ -549,6 +558,7 @@ package redis
 
 //@ func (*client).handleResp
 //@   prop C04 C11 C02
+//@   alsoprop C01 C03 : only-moved-or-ask-errors-are-redirected redirections-are-followed-not-relayed
 //@   consumes req
 //@   requires v != nil
 //@   use lemma lower_empty
@@ -814,6 +824,9 @@ package redis
 
 //@ func (*upstream).MakeRequest
 //@   prop C02 C03 C01
+//@   callpre chooseHost @the-host-is-chosen-for-the-routing-key-of-this-request arg0 == u && sameslice(arg1, routingKey) && arg2 == req
+//@   callpre MakeRequestToHost @the-request-goes-to-the-chosen-host arg0 == u && arg2 == req
+//@   alsoprop C12 C14 C04 : the-host-is-chosen-for-the-routing-key-of-this-request the-request-goes-to-the-chosen-host
 //@   callpre SetResponse @locally-built-replies-are-one-line oneline(arg1)
 //@   consumes req
 //@   requires u != nil && req != nil && req.body != nil && len(req.body.Array) > 0
@@ -1179,7 +1192,7 @@ package redis
 //@   prop C09
 //@   requires u != nil && u.quit != nil && !closed(u.quit) && u.done != nil
 //@   modifies all
-//@   ensures @returns-only-after-the-serve-loop-has-finished waitedfor(u.done)
+//@   proves @returns-only-after-the-serve-loop-has-finished waitedfor(u.done)
 
 // ---- C13: pooled scratch buffers start empty and are emptied before they go back ------------------------------
 
